@@ -80,46 +80,105 @@ Lemma wit_three_in_data :
   zwrite (mk 2 3 [true; true; true; false; false; false] [0; 0; 0; 0; 0; 0] [(0, ph "a" "432")] []) kw0 = None.
 Proof. vm_compute. reflexivity. Qed.
 
+(* "write m kw gives a file whose read-back satisfies P" *)
+Definition rt_sat (w : option file) (P : rmap -> Prop) : Prop :=
+  match w with
+  | Some f => match read f with Some r => P r | None => False end
+  | None => False
+  end.
+
 (* one point in data: the file is written but cannot be read *)
 Lemma wit_single_row :
-  exists f, zwrite (mk 2 3 [false; true; false; false; false; false] [0; 0; 0; 0; 0; 0] [(0, ph "a" "432")] []) kw0 = Some f
-            /\ read f = None.
-Proof. eexists. split; vm_compute; reflexivity. Qed.
+  match zwrite (mk 2 3 [false; true; false; false; false; false] [0; 0; 0; 0; 0; 0] [(0, ph "a" "432")] []) kw0 with
+  | Some f => read f = None
+  | None => False
+  end.
+Proof. vm_compute. reflexivity. Qed.
 
 (* a single-column map (shape (4,)) comes back with shape () *)
 Lemma wit_single_column :
-  exists f r, zwrite (mk 4 1 (all_in 4) [0; 0; 0; 0] [(0, ph "a" "432")] []) kw0 = Some f
-              /\ read f = Some r /\ r_shape r = [] /\ r_dy r = 0.
-Proof. do 2 eexists. repeat split; vm_compute; reflexivity. Qed.
+  rt_sat (zwrite (mk 4 1 (all_in 4) [0; 0; 0; 0] [(0, ph "a" "432")] []) kw0)
+         (fun r => r_shape r = [] /\ r_dy r = 0).
+Proof. vm_compute. split; reflexivity. Qed.
 
 (* a phase name with a blank comes back as its last word *)
 Lemma wit_blank_name :
-  exists f r, zwrite (mk 2 2 (all_in 4) [0; 0; 0; 0] [(0, ph "iron alpha" "432")] []) kw0 = Some f
-              /\ read f = Some r /\ map (fun kv => rp_name (snd kv)) (r_phases r) = ["alpha"%string].
-Proof. do 2 eexists. repeat split; vm_compute; reflexivity. Qed.
+  rt_sat (zwrite (mk 2 2 (all_in 4) [0; 0; 0; 0] [(0, ph "iron alpha" "432")] []) kw0)
+         (fun r => map (fun kv => rp_name (snd kv)) (r_phases r) = ["alpha"%string]).
+Proof. vm_compute. reflexivity. Qed.
 
 (* an indexed point whose confidence index is -1 comes back not indexed *)
 Lemma wit_ci_collision :
-  exists f r, zwrite (mk 2 2 (all_in 4) [0; 0; 0; 0] [(0, ph "a" "432")]
-                        [{| pr_name := "ci"; pr_multi := false; pr_vals := map (fun v => [v]) [50000; -100000; 30000; 20000] |}]) kw0 = Some f
-              /\ read f = Some r /\ r_pid r = [1; -1; 1; 1].
-Proof. do 2 eexists. repeat split; vm_compute; reflexivity. Qed.
+  rt_sat (zwrite (mk 2 2 (all_in 4) [0; 0; 0; 0] [(0, ph "a" "432")]
+                     [{| pr_name := "ci"; pr_multi := false; pr_vals := map (fun v => [v]) [50000; -100000; 30000; 20000] |}]) kw0)
+         (fun r => r_pid r = [1; -1; 1; 1]).
+Proof. vm_compute. reflexivity. Qed.
 
 (* a step that is not resolved by 5 decimals: 1 x 110 points with dx = 0.0010049 come back as 111 *)
 Definition m_coarse : @cmap Z ZRot :=
   {| m_rows := 1; m_cols := 110; m_dx := 100490; m_dy := 0; m_in := all_in 110; m_pid := repeat 0 110; m_rmulti := false;
      m_rots := repeat [(0, 0, 0)] 110; m_phases := [(0, ph "a" "432")]; m_props := [] |}.
-Lemma wit_coarse_step :
-  match cwrite m_coarse kw0 with
-  | Some f => match read f with Some r => r_shape r = [111%nat] /\ r_dx r = 100 | None => False end
-  | None => False
-  end.
+Lemma wit_coarse_step : rt_sat (cwrite m_coarse kw0) (fun r => r_shape r = [111%nat] /\ r_dx r = 100).
 Proof. vm_compute. split; reflexivity. Qed.
 
-(* an extra column named like a standard column replaces it: the not-indexed pattern is lost *)
+(* an extra column named like a standard column replaces it: the not-indexed
+   point of a two-phase map comes back indexed, with the unknown phase id 0 *)
 Lemma wit_extra_named_ci :
-  exists f r, zwrite (mk 2 2 (all_in 4) [0; -1; 0; 1] [(-1, ph "not_indexed" "1"); (0, ph "a" "432"); (1, ph "b" "432")]
-                        [{| pr_name := "ci"; pr_multi := false; pr_vals := map (fun v => [v]) [50000; 40000; 30000; 20000] |}])
-                     {| k_index := None; k_iq := None; k_ci := None; k_ds := None; k_fit := None; k_extra := ["ci"%string] |} = Some f
-              /\ read f = Some r /\ r_pid r = [1; 0; 1; 2].
-Proof. do 2 eexists. repeat split; vm_compute; reflexivity. Qed.
+  rt_sat (zwrite (mk 2 2 (all_in 4) [0; -1; 0; 1] [(-1, ph "not_indexed" "1"); (0, ph "a" "432"); (1, ph "b" "432")]
+                     [{| pr_name := "ci"; pr_multi := false; pr_vals := map (fun v => [v]) [50000; 40000; 30000; 20000] |}])
+                 {| k_index := None; k_iq := None; k_ci := None; k_ds := None; k_fit := None; k_extra := ["ci"%string] |})
+         (fun r => r_pid r = [1; 0; 1; 2]).
+Proof. vm_compute. reflexivity. Qed.
+
+Lemma ref_small_map : exists m kw, (m_rows m * m_cols m <= 3)%nat /\ zwrite m kw = None.
+Proof. exists (mk 1 3 (all_in 3) [0; 0; 0] [(0, ph "a" "432")] []), kw0. split; [simpl; auto | exact wit_small_map]. Qed.
+
+Lemma ref_three_in_data :
+  exists m kw, length (in_pts m) = 3%nat /\ zwrite m kw = None.
+Proof.
+  exists (mk 2 3 [true; true; true; false; false; false] [0; 0; 0; 0; 0; 0] [(0, ph "a" "432")] []), kw0.
+  split; [reflexivity | exact wit_three_in_data].
+Qed.
+
+Lemma ref_single_row :
+  exists m kw, match zwrite m kw with Some f => read f = None | None => False end.
+Proof.
+  exists (mk 2 3 [false; true; false; false; false; false] [0; 0; 0; 0; 0; 0] [(0, ph "a" "432")] []), kw0.
+  exact wit_single_row.
+Qed.
+
+Lemma ref_single_column :
+  exists m kw, m_rows m = 4%nat /\ m_cols m = 1%nat /\ rt_sat (zwrite m kw) (fun r => r_shape r = [] /\ r_dy r = 0).
+Proof.
+  exists (mk 4 1 (all_in 4) [0; 0; 0; 0] [(0, ph "a" "432")] []), kw0.
+  split; [reflexivity | split; [reflexivity | exact wit_single_column]].
+Qed.
+
+Lemma ref_blank_name :
+  exists m kw, map (fun kv => ph_name (snd kv)) (m_phases m) = ["iron alpha"%string]
+               /\ rt_sat (zwrite m kw) (fun r => map (fun kv => rp_name (snd kv)) (r_phases r) = ["alpha"%string]).
+Proof.
+  exists (mk 2 2 (all_in 4) [0; 0; 0; 0] [(0, ph "iron alpha" "432")] []), kw0.
+  split; [reflexivity | exact wit_blank_name].
+Qed.
+
+Lemma ref_ci_collision :
+  exists m kw, m_pid m = [0; 0; 0; 0] /\ rt_sat (zwrite m kw) (fun r => r_pid r = [1; -1; 1; 1]).
+Proof.
+  exists (mk 2 2 (all_in 4) [0; 0; 0; 0] [(0, ph "a" "432")]
+             [{| pr_name := "ci"; pr_multi := false; pr_vals := map (fun v => [v]) [50000; -100000; 30000; 20000] |}]), kw0.
+  split; [reflexivity | exact wit_ci_collision].
+Qed.
+
+Lemma ref_coarse_step :
+  exists m kw, m_rows m = 1%nat /\ m_cols m = 110%nat /\ rt_sat (cwrite m kw) (fun r => r_shape r = [111%nat] /\ r_dx r = 100).
+Proof. exists m_coarse, kw0. split; [reflexivity | split; [reflexivity | exact wit_coarse_step]]. Qed.
+
+Lemma ref_extra_named_ci :
+  exists m kw, m_pid m = [0; -1; 0; 1] /\ rt_sat (zwrite m kw) (fun r => r_pid r = [1; 0; 1; 2]).
+Proof.
+  exists (mk 2 2 (all_in 4) [0; -1; 0; 1] [(-1, ph "not_indexed" "1"); (0, ph "a" "432"); (1, ph "b" "432")]
+             [{| pr_name := "ci"; pr_multi := false; pr_vals := map (fun v => [v]) [50000; 40000; 30000; 20000] |}]),
+         {| k_index := None; k_iq := None; k_ci := None; k_ds := None; k_fit := None; k_extra := ["ci"%string] |}.
+  split; [reflexivity | exact wit_extra_named_ci].
+Qed.
